@@ -285,6 +285,15 @@ package notify
 //@   ensures [only-firing] forall h uint64 :: (h in result2) ==> (exists k int :: 0 <= k && k < len(alerts) && !resolvedNow(alerts[k]) && hashOf(alerts[k]) == h)
 //@   ensures [only-resolved] forall h uint64 :: (h in result3) ==> (exists k int :: 0 <= k && k < len(alerts) && resolvedNow(alerts[k]) && hashOf(alerts[k]) == h)
 //@   ensures [lists-agree-with-sets] len(result0) + len(result1) == len(alerts) && result2 != nil && result3 != nil
+//@   ensures [firing-list-is-the-firing-hashes] (forall i int :: 0 <= i && i < len(alerts) && !resolvedNow(alerts[i]) ==> hashOf(alerts[i]) in elems(result0))
+//@             && (forall k int :: 0 <= k && k < len(result0) ==> (exists i int :: 0 <= i && i < len(alerts) && !resolvedNow(alerts[i]) && hashOf(alerts[i]) == result0[k]))
+//@   ensures [resolved-list-is-the-resolved-hashes] (forall i int :: 0 <= i && i < len(alerts) && resolvedNow(alerts[i]) ==> hashOf(alerts[i]) in elems(result1))
+//@             && (forall k int :: 0 <= k && k < len(result1) ==> (exists i int :: 0 <= i && i < len(alerts) && resolvedNow(alerts[i]) && hashOf(alerts[i]) == result1[k]))
+//@   loop 1 invariant base(firing) != base(resolved)
+//@   loop 1 invariant forall i int :: 0 <= i && i <= rangeindex && !resolvedNow(alerts[i]) ==> hashOf(alerts[i]) in elems(firing)
+//@   loop 1 invariant forall i int :: 0 <= i && i <= rangeindex && resolvedNow(alerts[i]) ==> hashOf(alerts[i]) in elems(resolved)
+//@   loop 1 invariant forall k int :: 0 <= k && k < len(firing) ==> (exists i int :: 0 <= i && i <= rangeindex && !resolvedNow(alerts[i]) && hashOf(alerts[i]) == firing[k])
+//@   loop 1 invariant forall k int :: 0 <= k && k < len(resolved) ==> (exists i int :: 0 <= i && i <= rangeindex && resolvedNow(alerts[i]) && hashOf(alerts[i]) == resolved[k])
 //@   loop 1 invariant rangeindex < len(alerts) && fresh(firingSet) && fresh(resolvedSet) && firingSet != resolvedSet && len(firing) + len(resolved) == rangeindex + 1 && fresh(firing) && fresh(resolved)
 //@   loop 1 invariant count("Alert).Resolved$") == rangeindex + 1 && clock() >= old(clock())
 //@   loop 1 invariant forall i int :: 0 <= i && i <= rangeindex && alerts[i].EndsAt != 0 && alerts[i].EndsAt <= old(clock()) ==> resolvedNow(alerts[i])
